@@ -2,6 +2,7 @@ import Harper.Props.C02
 import Harper.Lemmas.CondensePats
 import Harper.Lemmas.Shape
 import Harper.Lemmas.LexExt
+import Harper.Model.DocFull
 /-!
 # C02 (continued) — `Document::parse`: every condensing pass preserves tiling
 
@@ -166,23 +167,72 @@ theorem document_inbounds_sorted (cls : Cls) (ext : Ext) (src : List Char) (hext
   obtain ⟨_, h2, h3⟩ := tiles_inbounds_sorted toks 0 src.length h
   exact ⟨toks, e, fun t ht => ⟨(h2 t ht).2.1, (h2 t ht).2.2⟩, h3⟩
 
+/-- the two pipelines the driver runs are one: op `docfull` (`documentFull`, nothing handed over) is op `doc`
+(`document`) on the table the model's own url / e-mail / hostname lexers compute from the text -/
+theorem documentFull_eq (cls : Cls) (src : List Char) :
+    documentFull cls src = document cls (extOfSrc src) src := rfl
+
+/-- … and `PlainEnglish::parse` inside it is `parsePlainFull` (op `lexfull`) -/
+theorem documentFull_eq_condense (cls : Cls) (src : List Char) :
+    documentFull cls src = (parsePlainFull cls src >>= condenseAll src) := by
+  simp only [documentFull, document, parsePlainFull]
+  cases parsePlain cls (extOfSrc src) src <;> rfl
+
 /-- `Document::new(text, &PlainEnglish, _)` with the url / e-mail / hostname lexers computed by the model
-(`extOfSrc`, `Model/LexExt.lean`): no hypothesis left but the text and the Unicode class table -/
+(`extOfSrc`, `Model/LexExt.lean`; `documentFull` is what op `docfull` runs against the real `Document::new`):
+no hypothesis left but the text and the Unicode class table -/
 theorem documentFull_tiles (cls : Cls) (src : List Char) :
-    ∃ toks, document cls (extOfSrc src) src = .ok toks ∧ Tiles toks 0 src.length :=
+    ∃ toks, documentFull cls src = .ok toks ∧ Tiles toks 0 src.length :=
   document_tiles cls (extOfSrc src) src (Harper.extOfSrc_ok src)
 
 theorem documentFull_inbounds_sorted (cls : Cls) (src : List Char) :
-    ∃ toks, document cls (extOfSrc src) src = .ok toks ∧
+    ∃ toks, documentFull cls src = .ok toks ∧
       (∀ t ∈ toks, t.span.start < t.span.stop ∧ t.span.stop ≤ src.length) ∧
       toks.Pairwise (fun x y => x.span.stop ≤ y.span.start) :=
   document_inbounds_sorted cls (extOfSrc src) src (Harper.extOfSrc_ok src)
+
+/-- never a panic, never out of fuel: the table-free pipeline is total -/
+theorem documentFull_total (cls : Cls) (src : List Char) : ∃ toks, documentFull cls src = .ok toks := by
+  obtain ⟨toks, h, _⟩ := documentFull_tiles cls src
+  exact ⟨toks, h⟩
 
 /-- `x@y.z, it's "1st"` with the computed table: e-mail address, contraction, ordinal suffix, quote twins -/
 example : (document asciiCls (extOfSrc ['x', '@', 'y', '.', 'z', ',', ' ', 'i', 't', '\'', 's', ' ', '"', '1', 's', 't', '"'])
       ['x', '@', 'y', '.', 'z', ',', ' ', 'i', 't', '\'', 's', ' ', '"', '1', 's', 't', '"']).toOption =
     some [⟨⟨0,5⟩,.email⟩, ⟨⟨5,6⟩,.punct .Comma⟩, ⟨⟨6,7⟩,.space 1⟩, ⟨⟨7,11⟩,.word⟩, ⟨⟨11,12⟩,.space 1⟩,
       ⟨⟨12,13⟩,.quote (some 7)⟩, ⟨⟨13,16⟩,.number 10 (some .st)⟩, ⟨⟨16,17⟩,.quote (some 5)⟩] := by decide
+
+/-- the driven definition on a text with an e-mail address, a URL and a hostname inside (`it's x@y.z, http://a.b/c or
+a.b 2nd`): what op `docfull` prints, kernel-evaluated — contraction and ordinal condensed around the three tokens the
+model's own lexers found -/
+example : (documentFull asciiCls ['i', 't', '\'', 's', ' ', 'x', '@', 'y', '.', 'z', ',', ' ', 'h', 't', 't', 'p', ':', '/', '/', 'a', '.', 'b', '/', 'c', ' ',
+      'o', 'r', ' ', 'a', '.', 'b', ' ', '2', 'n', 'd']).toOption =
+    some [⟨⟨0,4⟩,.word⟩, ⟨⟨4,5⟩,.space 1⟩, ⟨⟨5,10⟩,.email⟩, ⟨⟨10,11⟩,.punct .Comma⟩, ⟨⟨11,12⟩,.space 1⟩, ⟨⟨12,24⟩,.url⟩,
+      ⟨⟨24,25⟩,.space 1⟩, ⟨⟨25,27⟩,.word⟩, ⟨⟨27,28⟩,.space 1⟩, ⟨⟨28,31⟩,.hostname⟩, ⟨⟨31,32⟩,.space 1⟩,
+      ⟨⟨32,35⟩,.number 10 (some .nd)⟩] := by decide
+
+/-- non-vacuity of `documentFull_tiles` / `documentFull_inbounds_sorted` on that text: the theorem applied (its
+conclusion is about the 12 tokens above, which tile `[0, 35)`) -/
+example : ∃ toks, documentFull asciiCls ['i', 't', '\'', 's', ' ', 'x', '@', 'y', '.', 'z', ',', ' ', 'h', 't', 't', 'p', ':', '/', '/', 'a', '.', 'b', '/', 'c', ' ',
+      'o', 'r', ' ', 'a', '.', 'b', ' ', '2', 'n', 'd'] = .ok toks ∧ Tiles toks 0 35 :=
+  documentFull_tiles asciiCls _
+example : Tiles [⟨⟨0,4⟩,.word⟩, ⟨⟨4,5⟩,.space 1⟩, ⟨⟨5,10⟩,.email⟩, ⟨⟨10,11⟩,.punct .Comma⟩, ⟨⟨11,12⟩,.space 1⟩, ⟨⟨12,24⟩,.url⟩,
+      ⟨⟨24,25⟩,.space 1⟩, ⟨⟨25,27⟩,.word⟩, ⟨⟨27,28⟩,.space 1⟩, ⟨⟨28,31⟩,.hostname⟩, ⟨⟨31,32⟩,.space 1⟩,
+      ⟨⟨32,35⟩,.number 10 (some .nd)⟩] 0 35 := by decide
+
+/-- a quirk of the real lexers kept inside the pipeline: `lex_login` looks for the first `@` in the whole rest of the
+text, so an address LATER in the sentence cuts the URL down to `http://` and the host and path are lexed separately
+(`see http://a.b/c, x@y.z`; the same text without the address keeps `http://a.b/c` whole, see above) -/
+example : (documentFull asciiCls ['s', 'e', 'e', ' ', 'h', 't', 't', 'p', ':', '/', '/', 'a', '.', 'b', '/', 'c', ',', ' ', 'x', '@', 'y', '.', 'z']).toOption =
+    some [⟨⟨0,3⟩,.word⟩, ⟨⟨3,4⟩,.space 1⟩, ⟨⟨4,11⟩,.url⟩, ⟨⟨11,14⟩,.hostname⟩, ⟨⟨14,15⟩,.punct .ForwardSlash⟩,
+      ⟨⟨15,16⟩,.word⟩, ⟨⟨16,17⟩,.punct .Comma⟩, ⟨⟨17,18⟩,.space 1⟩, ⟨⟨18,23⟩,.email⟩] := by decide
+
+/-- the computed table matters: with the empty table (op `doc` with nothing handed over) the same text has no
+e-mail token — `docfull` and `doc | … |` differ exactly by what the three lexers find -/
+example : (documentFull asciiCls ['x', '@', 'y', '.', 'z']).toOption = some [⟨⟨0,5⟩,.email⟩] ∧
+    (document asciiCls (fun _ => none) ['x', '@', 'y', '.', 'z']).toOption =
+      some [⟨⟨0,1⟩,.word⟩, ⟨⟨1,2⟩,.punct .At⟩, ⟨⟨2,4⟩,.word⟩, ⟨⟨4,5⟩,.word⟩] := by
+  decide
 
 /-! ### witnesses (kernel-evaluated): the quirks the model keeps -/
 
